@@ -240,6 +240,13 @@ add("FX-34", "4892658", "C02", "wf.child_multiplicity", "GlencoeReader.transform
     "its parent a second time: the returned model was not a tree",
     put_plan("glencoe", _gl, {"kind": "any"}, "C02"))
 
+add("FX-35", "d45f29c", "C19", "rand.value_outside_domain", "GenerateRandomAttribute.execute",
+    "for a float range whose bounds print in exponent notation (2.5e-07 .. 5e-07) the number of "
+    "decimal places was taken as -1 and every generated value was rounded to 0.0, outside the range",
+    ops_plan([{"op": "RANDATTR", "m": "m1", "attr": "cost",
+               "domain": {"ranges": [[2.5e-07, 5e-07]], "elems": []}, "only_leaf": False,
+               "mode": "seeded", "seed": 7, "obj": "fresh"}], [M(F("A", [R(1, 1, F("B"))]))]))
+
 
 def main():
     os.makedirs(os.path.join(orch.VERIF, "known"), exist_ok=True)
